@@ -124,8 +124,13 @@ def guards_of(ctx, F, target_block):
             continue
         sl = O.slice_back(F, t["op"])
         vars_ = {F.name_of.get(l) for l in sl["locals"] if F.name_of.get(l)}
+        binops = set()
+        for l in sl["locals"]:
+            for d in F.defs().get(l, []):
+                if d[0] == "assign" and d[3]["k"] == "bin":
+                    binops.add(d[3].get("op"))
         out.append({"block": b, "vars": vars_, "consts": {str(x) for x in sl["consts"]}, "calls": sl["calls"],
-                    "fields": sl["fields"], "esc": esc})
+                    "fields": sl["fields"], "esc": esc, "binops": binops})
     return out
 
 
@@ -174,16 +179,16 @@ def raw_undo_validates_all(ctx, chk, rid):
 def run(ctx, chk):
     O, P = ctx.O, ctx.P
     bodies = decoder_bodies(P, O)
-    if len(bodies) < 60:
-        raise AnchorMissing("expected >= 60 decoder bodies (incl. numeric/array impls and closures), found %d" % len(bodies))
+    if len(bodies) < 40:
+        raise AnchorMissing("expected >= 40 decoder bodies (incl. numeric/array impls and closures), found %d" % len(bodies))
     for must in ("rawdb::region_metadata::RegionMetadata::from_bytes", "vecdb::base::header::inner::HeaderInner::from_bytes",
                  "vecdb::base::change::cursor::ChangeCursor::<'a>::read_values",
                  "vecdb::base::change::cursor::ChangeCursor::<'a>::check_remaining"):
         if must not in bodies:
             raise AnchorMissing("decoder %s not found" % must)
     total, kinds = run_sites(ctx, chk, bodies)
-    if total < 30:
-        raise AnchorMissing("expected >= 30 potential panic/allocation sites in the decoders, found %d" % total)
+    if total < 20:   # 49 today; merging decoders into shared helpers legitimately lowers the count
+        raise AnchorMissing("expected >= 20 potential panic/allocation sites in the decoders, found %d" % total)
     # check_remaining itself: checked addition and comparison against the slice length
     D = ctx._decode
     ens = D.ensures("vecdb::base::change::cursor::ChangeCursor::<'a>::check_remaining")
@@ -295,6 +300,31 @@ def run(ctx, chk):
                        "error edge continues the loop)", (not propagates) and skip, detail={"users": users, "in": hid},
                        key="D4|Regions::fill|skip-bad-slot",
                        msg="a metadata slot that fails validation must be ignored at open without disturbing the valid ones")
+    # D9 the position at which truncated values are restored is COMPUTED from validated fields (prev_stored_len -
+    # truncated_count, checked), never taken from the record as it is
+    pcd = [b for b in P.bodies if b.endswith("::parse_change_data") and "closure" not in b]
+    if not pcd:
+        raise AnchorMissing("parse_change_data not found")
+    Dd = ctx._decode
+    for bid in pcd:
+        Fp = O.body(bid)
+        adt = P.adts.get("vecdb::base::change::ChangeData") or next((a for n, a in P.adts.items() if n.endswith("::ChangeData")), None)
+        hits = 0
+        for b in Fp.reachable():
+            for st in Fp.blocks[b]["stmts"]:
+                if st[0] == "assign" and st[2]["k"] == "agg" and str(st[2].get("adt", "")).endswith("ChangeData") and adt:
+                    fields = [f["name"] for f in adt["variants"][0]["fields"]]
+                    if "truncated_start" not in fields:
+                        continue
+                    e = Dd.expr(Fp, st[2]["ops"][fields.index("truncated_start")])
+                    hits += 1
+                    ok = e[0] == "sub" or "checked_sub" in str(O.slice_back(Fp, st[2]["ops"][fields.index("truncated_start")])["calls"])
+                    chk.oblige("D9 parse_change_data: ChangeData.truncated_start is computed by a (checked) subtraction of "
+                               "decoded lengths (%s)" % Dd.show(e), ok, key="D9|parse_change_data|truncated_start-unvalidated",
+                               msg="a start position decoded from the record and used unvalidated restores the truncated "
+                                   "values at arbitrary slots, or overflows `truncated_start + i`")
+        if not hits:
+            raise AnchorMissing("parse_change_data: construction of ChangeData with field truncated_start not found")
     # D8 change records: the slot indices of a raw change record are applied by update_at whose result is only
     # debug-asserted; every one of them must have been range-checked (a whole-collection scan with an error exit)
     raw_undo_validates_all(ctx, chk, "D8")
